@@ -28,7 +28,13 @@ def main():
         tier = os.environ["VERIF_TIER"]
     ck = core.Check(prop, tier, seed)
     try:
-        ck.lean(getattr(mod, "EXTRA_AUDIT_MODULES", ()))
+        ok = ck.lean(getattr(mod, "EXTRA_AUDIT_MODULES", ()))
+        if not ok and getattr(ck, "build_log", None) is not None and not getattr(mod, "HANDLES_BUILD_FAILURE", False):
+            # the Lean project does not build: nothing is proven and the driver is stale. For hand-written
+            # models this can only be a mistake in /verif (the models do not depend on /repo), so it is a
+            # machinery error, not a violation. Modules with tables generated from /repo opt in to handle it.
+            print("MACHINERY-ERROR lake build failed:\n" + ck.build_log[-1500:])
+            return 2
         if ck.driver is None:
             ck.driver = core.Driver() if os.path.exists(core.DRIVER) else None
         mod.main(ck)
